@@ -408,7 +408,8 @@ class Replayer:
         def observe():
             o = [[S(x) for x in inner.storage], [S(x) for x in th._loaded_strings], bool(th._loaded),
                  [[[S(x) for x in c["out"]], (1 if c["task"].exception() is None else 99) if c["task"].done() else 0] for c in cons],
-                 [bool(e.is_set()) for e in th._string_load_events]]
+                 [bool(e.is_set()) for e in th._string_load_events],
+                 getattr(th, "_num_prepended", -1)]
             obs.append(o)
 
         def when():
@@ -425,8 +426,9 @@ class Replayer:
         try:
             for lab in labels:
                 k = lab[0]
-                if k in (2, 7):
+                if k == 2:
                     idx = len(cons)
+                    first_load = th._load_thread is None
                     loop = self.loops[idx]
                     ex = self.execs[idx]
                     out = []
@@ -449,7 +451,8 @@ class Replayer:
                         c["event"] = th._string_load_events[-1]
                         if not c["event"].is_set():
                             info["race"] = True      # the consumer already did its first read
-                    if k == 7:
+                    if first_load:
+                        # the first load() reset the cache and started the thread, which now sits before its snapshot
                         if ctl.arrivals.get(timeout=5) != "pre":
                             raise Hang()
                 elif k == 1:
@@ -559,7 +562,7 @@ def oracle_threaded(S0, labels, obs, info):
 
 
 def label_name(l):
-    return {1: "L", 2: "CStart", 3: "CRead%d" % (l[1] if len(l) > 1 and isinstance(l[1], int) else 0), 4: "AIns", 5: "ASto", 6: "Append", 7: "CStart+L"}.get(l[0], "?")
+    return {1: "L", 2: "CStart", 3: "CRead%d" % (l[1] if len(l) > 1 and isinstance(l[1], int) else 0), 4: "AIns", 5: "ASto", 6: "Append"}.get(l[0], "?")
 
 
 def gen_schedules(chk):
@@ -603,9 +606,9 @@ def gen_schedules(chk):
             scheds.append((s0, r))
             nw += 1
     dist["guided_walk"] = {"replayed": nw}
-    # the two hand witnesses of Props/C13.v, as the model spells them for the harness (CStart;LStep = label 7)
-    scheds.insert(0, ([a, b, c], [[7], [1], [1], [1], [3, 0], [4, S("NEW")], [5, S("NEW")], [1], [1], [3, 0]]))
-    scheds.insert(1, ([a, b], [[7], [4, S("NEW")], [5, S("NEW")], [1], [1], [1], [1], [1], [3, 0]]))
+    # the hand schedules of Props/C13.v: the repaired C13-F1 witness and the window of C13-F2
+    scheds.insert(0, ([a, b, c], [[2], [1], [1], [1], [3, 0], [4, S("NEW")], [5, S("NEW")], [1], [1], [3, 0]]))
+    scheds.insert(1, ([a, b], [[2], [4, S("NEW")], [5, S("NEW")], [2], [1], [1], [1], [1], [1], [3, 1]]))
     return scheds, dist
 
 
@@ -732,7 +735,7 @@ def _main(chk, pr, runner, rep):
             clause, tags, detail = bad
             chk.violation("oracle", clause + " (" + detail + "; S0=%r schedule=%s)" % ([unS(x) for x in s0], " ".join(label_name(l) for l in labels)),
                           tags, {"case": sx_norm(case), "observed_last": sx_norm(obs[-1]), "clause": clause, "appends_when": info["appends"],
-                                 "how": "ThreadedHistory over a gated in-memory history; labels 1=loader step 7=first load()+reset 2=load() 3=consumer read 4/5=append_string halves; harness/c13.py Replayer.replay"})
+                                 "how": "ThreadedHistory over a gated in-memory history; labels 1=loader step 2=load() 3=consumer read 4/5=append_string halves; harness/c13.py Replayer.replay"})
         if i % 97 == 0:
             chk.sample({"family": "schedule", "S0": [unS(x) for x in s0], "schedule": " ".join(label_name(l) for l in labels),
                         "yielded": [[unS(x) for x in c[0]] for c in obs[-1][3]] if len(obs[-1]) > 3 else None}, limit=12)
@@ -804,7 +807,7 @@ def _main(chk, pr, runner, rep):
         "CPython's UTF-8 decoder with errors='replace' is C code outside /repo: the Coq decoder (Model/C13_Utf8.v utf8_dec) is a model of it, tied by the kind-5 correspondence and by every torn-file case; the theorems hold for that model",
         "the timestamp is any byte string without line feed (datetime.now() formatting is outside the model)",
         "ThreadedHistory: lock regions and single unlocked statements are atomic steps; threading.Lock/Event, run_in_executor and list operations under the GIL are trusted; the model lets a consumer read at any time (superset of real schedules)",
-        "schedules in which an append falls between thread start and the loader's cache reset cannot be forced from outside and are covered by the theorem only",
+        "load() and append_string both run on the event-loop thread: schedules in which a load() starts between the two halves of an append_string are not forced (and are outside the theorem's hypothesis ok_sched)",
     ]
     return chk.finish()
 
